@@ -224,9 +224,14 @@ RejectedIsNoEncoding == pc = "done" /\ res[1] \in {"rej", "badlen", "off"} /\ in
 
 \* ---------------------------------------------------------------- once per run
 Designated == pc = "start" /\ cid = 0 /\ inp = AbsInput(1, CHOOSE c \in Classes : TRUE)
-\* the claims OKRows / TableOK are compared by the harness with the record printed below (RowFact is evaluated once)
+\* the claims OKRows / TableOK are compared by the harness with the records printed below; EncodedShape on the
+\* end points (RowFact = what the machine computes for the classes "zero" and "ones") checks OKRows as well
 ClaimsRight == Designated => AlphabetRight
 \* ---------------------------------------------------------------- export for Leg B
-Emit == /\ (Designated => PrintT(<<"OUT", "table", [i \in RowIds |-> RowFact(i)], Overlaps, EncDups, BadChars>>))
+\* the end points of every row are inputs of the machine (classes "zero" and "ones"): their shape is printed there
+IsEndPoint == cid = 0 /\ (inp = AbsInput(erow, "zero") \/ inp = AbsInput(erow, "ones"))
+Emit == /\ (Designated => PrintT(<<"OUT", "table", Overlaps, EncDups, BadChars>>))
+        /\ (pc = "encoded" /\ IsEndPoint =>
+              PrintT(<<"OUT", "end", erow, inp[3][1], Len(str), IsPrefix(HP(erow), str), \E j \in DOMAIN BP(erow) : BP(erow)[j] # 0>>))
         /\ (pc = "done" /\ cid # 0 => PrintT(<<"OUT", "case", cid, erow, str, res>>))
 =============================================================================
